@@ -20,7 +20,7 @@ func init() {
 		ID:      "C10",
 		Run:     runC10,
 		NeedSSA: true,
-		Level:   "Static analysis (role identification on the typed syntax + path enumeration on the control-flow graphs of the reader and parser goroutines + module-wide who-may-send/receive rules). Decides NECESSARY structural conditions of the property, not the property: carried — the four pieces of de-framing state (prefix count, prefix buffer, remaining-bytes counter, current pool buffer; identified by role, not by name) are declared outside the loop that calls conn.Read, so a frame split across reads is continued, not restarted; complete — the prefix buffer has constant length P, every comparison of the prefix count uses P, the remaining counter is the big-endian 16-bit value at offset 2 of the prefix buffer minus P, and the hand-off to the full pool is enclosed in the test 'remaining == 0'; handoff/inbound — on every path of the byte loop, after the buffer is sent to the full pool it is not used until it is replaced by one received from the empty pool, and the prefix count is re-armed; handoff/parse — on every path of one parser iteration that took a buffer from the full pool there is exactly one parse of its bytes, one send on Inbound, one Reset and one send of that buffer to the empty pool, in this order, and no use after it; errpath — every path leaving the reader either publishes nothing (connection closed by the local side) or sends exactly once on Error and then triggers shutdown, never handing the partial buffer over, and nothing else in the module sends on Error; roles — the only sender on the full pool is the reader, the only receiver the parser, the only sender on Inbound the parser, the only receiver of the empty pool the reader, conn.Read has one call site, and the reader is started exactly once per stream. Together with C12 (messages own their memory) these are what the recycling scheme relies on. NOT decided (no static argument in reach): absence of loss, duplication or merging under all interleavings of the 27 goroutines and all partitions of the byte stream, delivery order, behaviour after a failure at an arbitrary byte, liveness under a slow consumer.",
+		Level:   "Static analysis (role identification on the typed syntax + path enumeration on the control-flow graphs of the reader and parser goroutines + module-wide who-may-send/receive rules). Decides NECESSARY structural conditions of the property, not the property: carried — the four pieces of de-framing state (prefix count, prefix buffer, remaining-bytes counter, current pool buffer; identified by role, not by name) are declared outside the loop that calls conn.Read, so a frame split across reads is continued, not restarted; complete — the prefix buffer has constant length P, every comparison of the prefix count uses P, the remaining counter is the big-endian 16-bit value at offset 2 of the prefix buffer minus P, and the hand-off to the full pool is enclosed in the test 'remaining == 0'; handoff/inbound — on every path of the byte loop, after the buffer is sent to the full pool it is not used until it is replaced by one received from the empty pool, and the prefix count is re-armed; handoff/parse — on every path of one parser iteration that took a buffer from the full pool there is exactly one parse of its bytes, one send on Inbound, one Reset and one send of that buffer to the empty pool, in this order, and no use after it; errpath — every path leaving the reader either publishes nothing (connection closed by the local side) or sends exactly once on Error and then triggers shutdown, never handing the partial buffer over, and nothing else in the module sends on Error; roles — the only sender on the full pool is the reader, the only receiver the parser, the only sender on Inbound the parser, the only receiver of the empty pool the reader, conn.Read has one call site, and the reader is started exactly once per stream. Together with C12 (messages own their memory) these are what the recycling scheme relies on. NOT decided (no static argument in reach): absence of loss, duplication or merging under all interleavings of the 27 goroutines and all partitions of the byte stream, delivery order, behaviour after a failure at an arbitrary byte, liveness under a slow consumer. Also decided: inframe/<site> (C08's bounds obligations) — no packet-header decoder the parser reaches indexes or re-slices its input beyond its length; behind a frame the recycled pool buffer holds earlier frames.",
 		Assumptions: []string{
 			"roles are identified structurally: the buffer sent on pool.Full, the slice indexed by the prefix count, the variable assigned from the 16-bit length read",
 			"C12 holds (parsed messages do not alias the pool buffer)",
